@@ -5,7 +5,7 @@
    which respects the contract and is consumed entirely by the model. *)
 From Coq Require Import List ZArith QArith Bool Lia Permutation.
 From DD Require Import Model.Circuit Model.Query Model.Enumerate
-     Proofs.PassLemmas Proofs.Enum Proofs.Semantics Proofs.CountsA Proofs.QueryDefs
+     Proofs.PassLemmas Proofs.Enum Proofs.Semantics Proofs.CountsA Proofs.QueryDefs Proofs.Live
      Proofs.C07Defs Proofs.C07Valid Proofs.C07Urs Proofs.C07IdealDefs Proofs.C07Uniform Proofs.C07Align
      Proofs.ExecTemps Proofs.C07Final
      Proofs.C07GeneralDefs Proofs.C07GeneralDist Proofs.C07GeneralAlign Proofs.C07GeneralUniform.
@@ -54,21 +54,23 @@ Proof.
 Qed.
 
 Lemma jointk_nonneg : forall i, (i < length C)%nat ->
-  forall f, (i < f)%nat -> forall a, 0 <= a -> a = 0 \/ cnt i <> 0 -> nonneg (jointk d ts SL f a i).
+  forall f, (i < f)%nat -> Reach C i -> forall a, 0 <= a -> a = 0 \/ cnt i <> 0 ->
+  nonneg (jointk d ts SL f a i).
 Proof.
-  apply (idx_induction C (fun i => forall f, (i < f)%nat -> forall a, 0 <= a -> a = 0 \/ cnt i <> 0 ->
-                                   nonneg (jointk d ts SL f a i)) Hok).
-  intros i Hi IH f Hif a Ha Hlive. destruct f as [|f]; [lia|].
+  apply (idx_induction C (fun i => forall f, (i < f)%nat -> Reach C i -> forall a, 0 <= a ->
+                                   a = 0 \/ cnt i <> 0 -> nonneg (jointk d ts SL f a i)) Hok).
+  intros i Hi IH f Hif HR a Ha Hlive. destruct f as [|f]; [lia|].
   rewrite jointk_S. destruct (a =? 0) eqn:Ea; [apply nonneg_ret|]. apply Z.eqb_neq in Ea.
   destruct Hlive as [Hlive|Hcnt]; [contradiction|].
+  pose proof (reach_children d A Hok i Hi HR Hcnt) as HRc.
   pose proof (idx_ok_nth C i FalseN Hok Hi) as Hch.
   pose proof (countsA_unfold A C i 0 Hok Hi) as Hcu.
   destruct (nth i C FalseN) as [l|cs|cs| |] eqn:E; cbn [children countA_node] in *; try apply nonneg_ret.
   - apply nonneg_and_fold; [|apply nonneg_ret]. intros c Hc. specialize (Hch c Hc).
-    apply IH; [exact Hc|lia|exact Ha|]. right.
+    apply IH; [exact Hc|lia|exact (HRc c Hc)|exact Ha|]. right.
     rewrite Hcu in Hcnt. apply (zprod_nonzero _ Hcnt). apply in_map_iff. now exists c.
-  - assert (Hti : nth i ts 0 = cnt i) by (apply Hts; [exact Hi|congruence]).
-    destruct (HSL i cs a Hi E ltac:(lia) ltac:(congruence)) as [Hsup _].
+  - assert (Hti : nth i ts 0 = cnt i) by (apply Hts; [exact Hi|congruence|exact HR]).
+    destruct (HSL i cs a Hi E ltac:(lia) ltac:(congruence) HR) as [Hsup _].
     apply nonneg_bind; [intros v w Hv; now destruct (Hsup v w Hv)|]. intros v w Hv.
     destruct (Hsup v w Hv) as [_ Hsp]. destruct (split_ok_spec ts cs v a Hsp) as [_ [Hnn _]].
     apply nonneg_bind.
@@ -86,8 +88,8 @@ Proof.
         assert (Hc : In c cs) by (apply Hincl; now left).
         pose proof (Hch c Hc) as Hci.
         apply nonneg_bind.
-        - apply (IH c Hc); [lia|exact Hak|]. right.
-          destruct (nth c C FalseN) eqn:Ec; try (apply (live_cnt d A ts Hts); [lia|exact Et|congruence]).
+        - apply (IH c Hc); [lia|exact (HRc c Hc)|exact Hak|]. right.
+          destruct (nth c C FalseN) eqn:Ec; try (apply (live_cnt d A ts Hts); [lia|exact Et|congruence|exact (HRc c Hc)]).
           rewrite (true_cnt d A Hok c); [lia|lia|exact Ec].
         - intros r1 w1 _. apply nonneg_bind; [apply Hrest|]. intros r2 w2 _. apply nonneg_ret. }
       apply Hgen. apply incl_refl.
@@ -172,7 +174,7 @@ Proof.
     subst r. cbn [snd]. destruct j; cbn [nth]; exact HVt. }
   all: assert (Hroot : nth (root C) C FalseN <> TrueN) by congruence.
   all: destruct (jointk_valid d A ts SL Hok Hts HSL (root C) (length C) a r w Hrl Hrl Ha Hroot
-                   root_cnt_nonzero Hr) as [Hlen HV];
+                   (reach_root C) root_cnt_nonzero Hr) as [Hlen HV];
     rewrite Forall_forall in HV; apply HV; apply nth_In; lia.
 Qed.
 
@@ -184,7 +186,7 @@ Theorem lawk_marginal a j : 1 <= a -> (j < Z.to_nat a)%nat ->
 Proof.
   intros Ha Hj. pose proof (wf_idx C n HWF) as Hok. pose proof (root_lt C (wf_nonempty C n HWF)) as Hrl.
   pose proof (complete_range C n (wf_complete C n HWF)) as HV.
-  destruct (jointk_good d A ts SL Hok Hts Hnt HSL (root C) Hrl (length C) Hrl a ltac:(lia)
+  destruct (jointk_good d A ts SL Hok Hts Hnt HSL (root C) Hrl (length C) Hrl (reach_root C) a ltac:(lia)
               root_cnt_nonzero) as [Htot Hpos].
   split; [exact Htot|]. intros m.
   assert (Hmass : (mass (margk j (lawk a)) m
@@ -214,9 +216,9 @@ Theorem lawk_runs a r w : 0 <= a -> In (r, w) (lawk a) ->
   choices_ok d ts (length C) a (root C) (fst r).
 Proof.
   intros Ha Hr. pose proof (wf_idx C n HWF) as Hok. pose proof (root_lt C (wf_nonempty C n HWF)) as Hrl.
-  split; [exact (jointk_nonneg d A ts SL Hok Hts HSL (root C) Hrl (length C) Hrl a Ha
+  split; [exact (jointk_nonneg d A ts SL Hok Hts HSL (root C) Hrl (length C) Hrl (reach_root C) a Ha
                    (or_intror root_cnt_nonzero) r w Hr)|].
-  pose proof (jointk_runs d A ts SL Hok Hts HSL (root C) Hrl (length C) Hrl a Ha
+  pose proof (jointk_runs d A ts SL Hok Hts HSL (root C) Hrl (length C) Hrl (reach_root C) a Ha
                 (or_intror root_cnt_nonzero) r w Hr []) as Hrun.
   rewrite app_nil_r in Hrun.
   split; [exact (sample_node_c_eq _ _ _ _ _ _ _ _ _ _ Hrun)|].
@@ -294,7 +296,7 @@ Proof.
   { intros r w Hr'.
     destruct (lawk_runs C n A ts SL HWF HA Hts Hsat HSL k r w ltac:(lia) Hr') as [Hw [Hs Hc]].
     destruct (jointk_valid (build C n) A ts SL Hok Hts HSL (root C) (length C) k r w Hrl Hrl ltac:(lia) Hroot
-                (root_cnt_nonzero C n A HWF HA Hsat) Hr') as [Hlen _].
+                (reach_root C) (root_cnt_nonzero C n A HWF HA Hsat) Hr') as [Hlen _].
     split; [exact Hw|].
     unfold urs_choices_okb, uniform_random_sampling. rewrite Ep.
     destruct (execute_query (build C n) A s1) as [s2 r0] eqn:Eq. cbn [fst snd] in Hr, Etemps. subst r0.
